@@ -217,6 +217,8 @@ impl RevIndex {
         // save DB version
         // TODO: probably should go together with a more general
         //       saving procedure used in create/update
+        #[cfg(sourmash_verif)]
+        module::verif_hooks::verif_point(2, 0, 0);
         self.db.put_cf(&cf_metadata, VERSION, [DB_VERSION])?;
 
         // write manifest
@@ -224,6 +226,8 @@ impl RevIndex {
         {
             self.collection.manifest().to_writer(&mut wtr)?;
         }
+        #[cfg(sourmash_verif)]
+        module::verif_hooks::verif_point(2, 0, 1);
         self.db.put_cf(&cf_metadata, MANIFEST, &wtr[..])?;
 
         // write storage spec
@@ -232,6 +236,8 @@ impl RevIndex {
         // TODO: check if spec if memstorage, would probably have to
         // save into rocksdb in that case!
 
+        #[cfg(sourmash_verif)]
+        module::verif_hooks::verif_point(2, 0, 2);
         self.db.put_cf(&cf_metadata, STORAGE_SPEC, spec)?;
 
         Ok(())
@@ -259,6 +265,8 @@ impl RevIndex {
             (&mut hash_bytes[..])
                 .write_u64::<LittleEndian>(hash)
                 .expect("error writing bytes");
+            #[cfg(sourmash_verif)]
+            module::verif_hooks::verif_point(0, dataset_id, hash);
             self.db
                 .merge_cf(&cf_hashes, &hash_bytes[..], colors.as_slice())
                 .expect("error merging");
@@ -268,6 +276,8 @@ impl RevIndex {
         // do a merge_cf in the PROCESSED key in metadata
         // to account for that.
         let cf_metadata = self.db.cf_handle(METADATA).unwrap();
+        #[cfg(sourmash_verif)]
+        module::verif_hooks::verif_point(1, dataset_id, 0);
         self.db
             .merge_cf(&cf_metadata, PROCESSED, colors.as_slice())
             .expect("error merging");
@@ -522,6 +532,8 @@ impl RevIndexOps for RevIndex {
     }
 
     fn compact(&self) {
+        #[cfg(sourmash_verif)]
+        module::verif_hooks::verif_point(3, 0, 0);
         for cf_name in ALL_CFS {
             let cf = self.db.cf_handle(cf_name).unwrap();
             self.db.compact_range_cf(&cf, None::<&[u8]>, None::<&[u8]>)
